@@ -567,6 +567,11 @@ func Seeds() []string {
 		"\"a\" + \"b\" c;",
 		"a \"b\" + c;",
 		"a \"b\" +",
+		"foo \"bar\" \"+\" \"baz\";",
+		"foo 'bar' '+' 'baz';",
+		"foo \"a\" + \"+\" + \"b\";",
+		"foo \"a\" \"+\";",
+		"foo \"a\" + '+';",
 		"module m { // c\n  leaf l { type string; description \"one\n                                 two\"; } /* x */ }",
 	}
 }
@@ -646,11 +651,30 @@ func EnumStrings(alphabet []string, maxLen int, f func(string)) {
 	rec(nil, maxLen)
 }
 
+// EnumSeq calls f with every sequence of at most maxLen elements of the alphabet.
+func EnumSeq(alphabet []string, maxLen int, f func([]string)) {
+	var rec func(prefix []string, left int)
+	rec = func(prefix []string, left int) {
+		f(prefix)
+		if left == 0 {
+			return
+		}
+		for _, a := range alphabet {
+			rec(append(prefix[:len(prefix):len(prefix)], a), left-1)
+		}
+	}
+	rec(nil, maxLen)
+}
+
 // TokenAlphabet is the 15-symbol alphabet of the token-level enumeration.
 var TokenAlphabet = []string{"a", " ", "\n", "\t", ";", "{", "}", "\"", "'", "\\", "+", "/", "*", "n", "é"}
 
 // ContentAlphabet is the alphabet of the string-content enumeration.
 var ContentAlphabet = []string{"a", " ", "\t", "\n", "\\", "n", "\"", "é"}
+
+// SeqAlphabet is the alphabet of the token-sequence enumeration: whole tokens, among them quoted strings
+// whose content is `+` (ordinary strings, not the concatenation operator) and the empty string.
+var SeqAlphabet = []string{"\"a\"", "'b'", "\"+\"", "'+'", "+", ";", "{", "}", "c", "\"\""}
 
 // QuotePrefixes are the texts put before the enumerated string content; the opening double quote
 // stands at tab-expanded column 3, 9 (after a tab), 11, 8 (after a comment), 13 (after a comment
